@@ -18,6 +18,8 @@ replay = F.replay
 def run(ctx, model_ok, deep=False):
     full = ctx.tier == "thorough" or deep
     F.run_suites(ctx, model_ok, deep, [
+        ("programs", S.programs_suite, S.falsify_programs,
+         "110 (quick) / 1500 (thorough) random programs of 55-70 API calls over 3 checkers, 3 builders, every pool key (with/without alg attribute, private/public), callbacks, clocks and both providers; every answer compared with the model; 60% of the verifies and generates are asked of a fresh twin configured by the same calls first", False),
         ("alg-matrix", None, S.falsify_accept,
          "cell = configured alg(16) x key(absent | kty x JWK alg attribute) x route(setkey, callback-selected, callback-overrides); "
          "per cell 23 header-alg variants x 3-5 signature classes; distinct = distinct (implementation answer, cell meta)", True),
